@@ -39,10 +39,15 @@ def derive_seed(*parts) -> int:
 
 
 class Chooser:
-    __slots__ = ("rng", "tape", "labels", "pos", "replay", "nontrivial", "record_labels")
+    __slots__ = ("rng", "tape", "labels", "pos", "replay", "nontrivial", "record_labels",
+                 "forced")
 
     def __init__(self, seed: int | None = None, tape: list[int] | None = None,
-                 record_labels: bool = False):
+                 record_labels: bool = False, forced: list[int] | None = None):
+        # ``forced``: values for the first draws of a generated run (used for
+        # systematic enumeration of a case index); they are recorded on the tape
+        # like any other draw, so replay needs nothing special.
+        self.forced = list(forced) if forced else None
         self.replay = tape is not None
         self.rng = random.Random(seed) if not self.replay else None
         self.tape: list[int] = list(tape) if tape is not None else []
@@ -65,7 +70,9 @@ class Chooser:
                 self.tape.append(0)
             self.pos += 1
         else:
-            if weights is not None:
+            if self.forced is not None and self.pos < len(self.forced):
+                v = self.forced[self.pos] % n
+            elif weights is not None:
                 v = self.rng.choices(range(n), weights=weights)[0]
             else:
                 v = self.rng.randrange(n)
